@@ -19,6 +19,11 @@ CHECKS = {
         ref="§3 C10"),
 }
 
+CHECKS["C19"] = dict(cat="proof", technique="GF(2)-linear abstract interpretation of the step function's MIR + exact bit-matrix algebra; dominance/provenance/bit-range rules for the distributions",
+    text="Proof for the algebraic core: the state update of Xorshift64::next_bits is interpreted in the GF(2)-linear fragment into a 64x64 bit matrix T read off the code; rank 64 (bijection, 0 is the only fixed point so a non-zero seed never reaches 0), T^(2^64-1)=I and T^((2^64-1)/p)!=I for all seven prime factors, with the factorisation and ord_641(2)=64 re-derived, plus an independent minimal-polynomial (Berlekamp-Massey) irreducibility/primitivity cross-check => one cycle through all 2^64-1 non-zero states. Structural obligations: seed!=0 dominates construction; the float sample's bit pattern lies in [0x3F800000,0x3FFFFFFF] consuming exactly 23 bits of one draw and is mapped affinely (polynomial identity); composite distributions draw in order from the same generator; rejection samplers return only the accepted vector; Bernoulli is a strict < against a Uniform(0..1) sample.",
+    note="Trusted: rustc MIR construction, fact serialiser, Python integer arithmetic, IEEE-754 bit layout. Not decided: rounding at the top of an offset float range, integer-range arithmetic, unit length of normalised samples.",
+    ref="§3 C19")
+
 NA = {}
 
 
